@@ -111,6 +111,7 @@ type Lemma struct {
 }
 
 type GlobalInv struct {
+	Tags []string
 	Pkg  string
 	Expr SExpr
 	Text string
@@ -292,12 +293,17 @@ func (cs *ContractSet) LoadFile(path, defaultPkg string) {
 			}
 			cs.Axioms = append(cs.Axioms, &Axiom{Name: strings.TrimSpace(rest[:idx]), Expr: e, Text: rest[idx+1:], File: path, Line: rc.line})
 		case kw == "globalinv":
+			var gtags []string
+			if m := tagRe.FindStringSubmatch(rest); m != nil {
+				gtags = strings.Split(m[1], ",")
+				rest = strings.TrimSpace(rest[:len(rest)-len(m[0])])
+			}
 			e, err := parseSpecExpr(rest)
 			if err != nil {
 				fail(rc.line, "%v", err)
 				continue
 			}
-			cs.GlobalInvs = append(cs.GlobalInvs, &GlobalInv{Pkg: pkg, Expr: e, Text: rest, File: path, Line: rc.line})
+			cs.GlobalInvs = append(cs.GlobalInvs, &GlobalInv{Pkg: pkg, Expr: e, Text: rest, File: path, Line: rc.line, Tags: gtags})
 		case kw == "lemma":
 			name, params, _, err := parseSig(rest, false)
 			if err != nil {
@@ -419,7 +425,7 @@ func (cs *ContractSet) LoadFile(path, defaultPkg string) {
 				// call <callee>[#N] (before|after) (unfold|use|assume|ghost) expr
 				f2 := strings.Fields(rest)
 				if len(f2) < 4 {
-					fail(rc.line, "call hint: call <callee>[#N] before|after unfold|use|assume|ghost <expr>")
+					fail(rc.line, "call hint: call <callee>[#N] before|after unfold|use|assume|ghost|label <expr>")
 					continue
 				}
 				callee := f2[0]
@@ -431,7 +437,7 @@ func (cs *ContractSet) LoadFile(path, defaultPkg string) {
 				pos := f2[1]
 				kind := f2[2]
 				off := strings.Index(rest, kind) + len(kind)
-				c := mkClause(kind, strings.TrimSpace(rest[off:]), rc.line, kind != "ghost")
+				c := mkClause(kind, strings.TrimSpace(rest[off:]), rc.line, kind != "ghost" && kind != "label")
 				if c == nil {
 					continue
 				}
